@@ -2,32 +2,58 @@ PROP = dict(
         coq="Properties/C08.v",
         workloads=[
             dict(name="lend-histories", go_test="TestC08", runner="C08",
-                 env=dict(quick=dict(VERIF_CASES=250), thorough=dict(VERIF_CASES=6000))),
+                 env=dict(quick=dict(VERIF_CASES=250), thorough=dict(VERIF_CASES=4000))),
+            # scripted regression corpus: the witness of the repaired finding C08-F1
+            dict(name="lend-witness", go_test="TestC08Witness", runner="C08"),
+            # scripted witness of the known finding C08-F2 (hand-over deletes a live lend record)
+            dict(name="lend-handover-witness", go_test="TestC08Handover", runner="C08"),
         ],
         rule="case = one history of 20-50 messages (lend / deposit / withdraw / close-lend / borrow / borrow-alternate / deposit-borrow / draw / "
-             "repay / close-borrow / calculate-interest-and-rewards) by 3 users over 2 pools x 3 assets with 12 same-pool and 5 cross-pool pairs "
+             "repay / close-borrow / calculate-interest-and-rewards, and hand-overs of positions to the liquidation auction through "
+             "liquidationsV2 MsgLiquidateInternalKeeper, half of them after a crash of the collateral price) by 3 users over 2 pools x 3 assets with 12 same-pool and 5 cross-pool pairs "
              "(one e-mode pair, one isolated asset, stable borrows), oracle moves and time gaps of 0 s .. 4 years between messages; amounts "
-             "boundary-directed (available +-1, LTV threshold +-1/+2, pool balance +-1, interest / reserve-share truncations +-1, exact close-out); "
-             "non-trivial = at least one borrow succeeded in the history; distinct by digest of the message sequence",
+             "boundary-directed (available +-1, LTV threshold +-1/+2, pool balance +-1, interest / reserve-share truncations +-1, exact close-out), "
+             "one borrow in ten names a lend position of another asset of the pool (C08-F1); plus the scripted witnesses of C08-F1 and C08-F2; "
+             "after EVERY message the full projection (pool-asset stats, every lend / borrow record, balances, cToken supplies, counters) is diffed "
+             "against the model and the extracted predicates holds_C08_lend / holds_C08_borrow / holds_C08_avail / mismatched_lend (all positions) and, for a successful "
+             "borrow / draw / withdraw / close-lend, holds_C08_ltv / holds_C08_ltv_new / holds_C08_pool / holds_C08_pledged judge the implementation's state; "
+             "a books failure is suppressed only after a successful message of class kf_C08_2 in the same history; "
+             "non-trivial = at least one borrow succeeded (or a position was handed over) in the history; distinct by digest of the message sequence",
         modelled=["interest arithmetic (CalculateLendReward / CalculateBorrowInterest / APR, C18's subject) enters as ENV values measured on a throw-away "
-                  "cache context at the block time of the message; what IterateLends/IterateBorrow DO with them is modelled",
+                  "cache context at the block time of the message (arbitrary in the theorems); what IterateLends/IterateBorrow DO with them is modelled",
+                  "the liquidation hand-over (liquidationsV2 LiquidateIndividualBorrow -> UpdateLockedBorrows) is modelled as coded in its effect on the lend "
+                  "books; its DECISION (ratio above the liquidation threshold, C09's subject) and the interest of IterateBorrowForLiq are ENV values the harness "
+                  "measures with the keeper's own functions; CreateLockedVault / AuctionActivator write liquidation / auction state only (not projected)",
                   "not modelled, never issued by the generator: FundModAcc, FundReserveAcc (RemoveFaultyAuctions), RepayWithdraw, DeletePoolAndTransferInterest, "
-                  "liquidation hand-over (UpdateLockedBorrows / CreteNewBorrow), ESM kill switch, pool depreciation",
+                  "what happens to a handed-over position afterwards (auction close MsgCloseDutchAuctionForBorrow, CreteNewBorrow), the first-generation "
+                  "liquidation, ESM kill switch, pool depreciation",
                   "reserve buy-back / AllReserveStats / FundModBal records are not projected",
-                  "sort.Search (binary) modelled as first index with ids[i] >= id; equal on ascending lists, and the id lists are proved ascending"],
+                  "sort.Search (binary) modelled as first index with ids[i] >= id; equal on ascending lists, and the id lists are proved ascending (= filter of 1..n)",
+                  "the pool-holds-the-loan predicate is evaluated on the message's pre-state for Draw and for a Borrow that opens a position; for DepositDraw "
+                  "top-ups and BorrowAlternate the theorem speaks about the state after the deposit half, which the implementation does not expose"],
         assumptions=["amounts below 2^62 (sdk.Int 256-bit overflow and Int64() conversions of the rate arithmetic are outside the model)",
                      "plain accounts only (no vesting / blocked recipients)",
-                     "governance records (pools, pairs, rate params, app mapping) constant during a history"],
+                     "governance records (pools, pairs, rate params, app mapping) constant during a history; asset decimals > 0, Ltv/ELtv >= 0 (cfg_wf)",
+                     "oracle prices unsigned (uint64 Twa)",
+                     "interest is counted as the code counts it: floor(InterestAccumulated) whole coins"],
     )
 
 MANIFEST = dict(
-    level_text="Both book invariants (total lent = available + pledged-and-not-auctioned collateral; totals borrowed = principal of open non-liquidated "
-               "borrows; id lists = exactly the open positions) proved for every finite history of the eleven lend messages with arbitrary oracle "
-               "prices and arbitrary interest/reward inputs; loan-to-value decision rule with explicit Quo rounding slack, pool-holds-the-loan and "
-               "pledged-collateral safety proved per message. The LTV clause is proved refuted when the lend position is of another asset than the "
-               "pair's asset in (BorrowAsset never checks it) and is listed as a known finding. The model is tied to /repo by a differential run "
-               "through the real lend message server on every check.",
+    level_text="PARTIAL (known finding C08-F2). Both book identities (total lent = available + pledged-and-not-auctioned collateral; totals borrowed variable/stable = principal of open "
+               "non-liquidated borrows; published id lists = exactly the positions of the pool-asset) proved as an inductive invariant of all eleven lend "
+               "messages (same-pool and cross-pool) and of the hand-over of a position to a liquidation auction, and lifted to every finite history with arbitrary "
+               "oracle prices and arbitrary interest / reward / liquidation-decision inputs OUTSIDE known-finding class kf_C08_2; inside it (the hand-over deletes a "
+               "lend record that still has available-to-borrow or other open positions) the identity of total lent is proved refuted with a witness replayed on "
+               "the real keepers (2 000 313 940 published vs 2 000 000 000 held by positions); AvailableToBorrow >= 0 in every reachable state; "
+               "loan-to-value decision rule of Borrow / Draw / BorrowAlternate with the explicit one-ulp Quo slack (and the bridged-coin bound for new "
+               "cross-pool positions), pool-holds-the-loan and pledged-collateral safety of Withdraw / CloseLend proved per message from any invariant "
+               "state, hence after every history. Finding C08-F1 (BorrowAsset accepted a lend position of another asset than the pair's asset in and priced "
+               "the pledged cTokens with it: loan worth 100% of the collateral at Ltv 0.5) was reproduced on the real keepers and is repaired by "
+               "fixes/C08-F1; the model follows the repaired code, 'no position hangs on a lend position of another asset' is part of the proved invariant, "
+               "the witness stays as a scripted workload. The model is tied to /repo by a differential run through the real lend message server on every check.",
     design_ref="DESIGN.md section 4 C08",
-    level_note="Trusted: Coq kernel, extraction (ExtrOcamlBasic), OCaml runner, Go harness. Interest arithmetic is an environment input (C18).",
-    technique="Coq proof (invariants by induction over histories, decision rules) + model/implementation correspondence run",
+    level_note="Trusted: Coq kernel, extraction (ExtrOcamlBasic), OCaml runner, Go harness. Interest arithmetic is an environment input (C18). "
+               "The liquidation decision is an environment input (C09); auction close / return of a handed-over position and the governance / funding "
+               "messages are not modelled (listed in the evidence). No axioms (Closed under the global context).",
+    technique="Coq proof (inductive invariants over message histories, decision rules with explicit Dec rounding) + model/implementation correspondence run",
 )
